@@ -127,6 +127,7 @@ func prop(c Case) error {
 		}
 	}
 
+	tainted := false
 	for i, op := range c.Ops {
 		if op.Kind == "lock" && !op.On {
 			// LockRegion(..., false) marks the whole region for repainting
@@ -143,8 +144,11 @@ func prop(c Case) error {
 		if pt == tsrun.None {
 			continue
 		}
-		tag := ""
 		if r.WideAtCornerOnTrickTerminal() {
+			tainted = true // the known defect damages the display from here on
+		}
+		tag := ""
+		if tainted || r.WideAtCornerOnTrickTerminal() {
 			tag = "[" + knownWideCorner + "] "
 		}
 		if err := r.CheckStrict(); err != nil {
